@@ -160,4 +160,4 @@ reg("C13",
     level_text="TRIAXYS (directional / non-directional, several files), NDBC ASCII (realtime and history layouts, with/without minutes, five-file directional and single-file 1-D), Spotter CSV and JSON, Datawell SPT, Obscape CSV, WW3 station text, SWAN ASCII (LONLAT/LOCATIONS, AFREQ/RFREQ, NDIR/CDIR, VaDens/EnDens, FACTOR/ZERO/NODATA, with or without TIME, gzip) and XWaves .mat files are generated by encoders written from the format layouts; the real readers must return the encoded timestamps (sorted), frequencies, directions (as coming-from degrees), positions and densities (unit factors pi/180, rho g), and where a directional spectrum is built from moments it must integrate back to the file's frequency spectrum and the 1-D request must return that spectrum unchanged. Held = on the files observed.",
     level_note="Trusted: vf/oracle/formats.py encoders (layouts checked against tests/sample_files headers; the truth is the parsed text, so precision is the file's). Instrument records are written in random order where the reader documents sorting; model files (SWAN, WW3 station) are chronological as the models write them. WW3-station files with several points are only checked up to coordinates (the reader's lat x lon grid layout of points is not asserted).",
     rule="case = (format variant x options/sizes); distinct = distinct keys per oracle; every file holds random multi-lobe spectra",
-    must_observe=["triaxys", "ndbc", "ndbc_1d_unchanged", "integrates_to_1d:ndbc", "spotter", "1d_unchanged:spotter", "integrates_to_1d:spotter", "datawell", "integrates_to_1d:datawell", "obscape", "ww3_station", "swan", "xwaves"])
+    must_observe=["triaxys", "ndbc", "ndbc_1d_unchanged", "integrates_to_1d:ndbc", "spotter", "1d_unchanged:spotter", "integrates_to_1d:spotter", "datawell", "integrates_to_1d:datawell", "obscape", "ww3_station", "swan", "xwaves", "swan_multi"])
